@@ -2,6 +2,7 @@
 #![feature(panic_internals)]
 #![feature(sized_hierarchy)]
 #![feature(const_destruct)]
+#![feature(nonzero_internals)]
 #![allow(unused_imports, dead_code, unused_variables, unused_mut, unused_assignments, non_snake_case, unreachable_code, unused_braces, unused_parens)]
 use vstd::prelude::*;
 use std::num::NonZeroU64;
